@@ -71,6 +71,8 @@ pub trait MapH {
     fn bulk_put(&mut self, kvs: &[(Vec<u8>, Vec<u8>)]) -> Result<()>;
     fn bulk_put_string(&mut self, kvs: &[(Vec<u8>, String)]) -> Result<()>;
     fn put_from_iter(&mut self, kvs: &[(Vec<u8>, Vec<u8>)]) -> Result<()>;
+    /// put_from_iter fed by a live traversal of the same map through a second handle
+    fn put_from_own_iter(&mut self, t: u8) -> Result<()>;
     fn len(&self) -> Result<u64>;
     fn is_empty(&self) -> Result<bool>;
     fn read_fill_buffer(&mut self) -> Result<()>;
@@ -91,6 +93,14 @@ pub trait MapH {
     fn stats(&self) -> Result<StatsOut>;
     /// typed key of the iteration converted back to the integer (U64/I64/Vu64), as i128
     fn key_to_int(&self, k: &[u8]) -> Option<i128>;
+}
+
+/// value transformation of Op::PutFromOwnIter (shared with the model)
+pub fn own_iter_transform(t: u8, v: &[u8]) -> Vec<u8> {
+    match t % 2 {
+        0 => v.to_vec(),
+        _ => v.iter().map(|b| !b).collect(),
+    }
 }
 
 fn int_of_bytes8(b: &[u8]) -> u64 {
@@ -243,6 +253,13 @@ macro_rules! impl_maph {
                     .map(|kv| (<$kt>::from_bytes(&kv.0), kv.1.clone()))
                     .collect();
                 self.0.put_from_iter(v.into_iter())
+            }
+            fn put_from_own_iter(&mut self, t: u8) -> Result<()> {
+                let reader = self.0.clone();
+                self.0.put_from_iter(reader.iter().map(|(k, v)| {
+                    crate::exec::tick();
+                    (k, own_iter_transform(t, &v))
+                }))
             }
             fn len(&self) -> Result<u64> {
                 self.0.len()
